@@ -340,11 +340,15 @@ func (m *fieldMachine) apply(s *fstate, oi int) (ns fstate, key, what string) {
 	}
 	kn := fkindName[o.kind]
 	want := refsecp.B32(d.v)
-	// (1) the value: normalised big-endian bytes of the result = model value
+	// (1) the value: the integer the result limbs represent, reduced mod p, = model value
+	if raw := refsecp.FMod(limbsValue(d.f.VerifLimbs())); raw.Cmp(d.v) != 0 {
+		return ns, "field/" + kn + "-wrong-value", fmt.Sprintf("%s: result limbs %x represent %x mod p, arithmetic mod p gives %x (operands: %s)", m.names[oi], d.f.VerifLimbs(), refsecp.B32(raw), want, limbsOf(s, o))
+	}
+	// (1b) Normalize as the observer every caller uses: normalised big-endian bytes = model value
 	c := d.f
 	c.Normalize()
 	if got := b32of(&c); !bytes.Equal(got, want) {
-		return ns, "field/" + kn + "-wrong-value", fmt.Sprintf("%s: result normalises to %x, arithmetic mod p gives %x (operand limbs %v)", m.names[oi], got, want, limbsOf(s, o))
+		return ns, "field/Normalize-wrong-value", fmt.Sprintf("after %s: limbs %x (magnitude <= %d, value %x mod p) normalise to %x", m.names[oi], d.f.VerifLimbs(), d.mag, want, got)
 	}
 	// (2) where the contract promises a canonical representation, the raw limbs are canonical
 	if d.norm {
@@ -480,16 +484,33 @@ func fieldPatternFamily(report func(finding)) (evals int, classes map[string]int
 			report(finding{Key: k, What: "operand-pattern family: " + what, Replay: map[string]interface{}{"backend": backend, "machine": "field-patterns", "op": kind, "operands": names}})
 		}
 	}
-	chk := func(kind string, f *secp256k1.Field, want *big.Int, names ...string) {
+	chk := func(kind string, f *secp256k1.Field, want *big.Int, names ...string) bool {
 		evals++
+		if raw := refsecp.FMod(limbsValue(f.VerifLimbs())); raw.Cmp(want) != 0 {
+			classes[kind+"|mismatch"]++
+			fail(kind, fmt.Sprintf("%s(%v): result limbs %x represent %x mod p, arithmetic mod p gives %x", kind, names, f.VerifLimbs(), refsecp.B32(raw), refsecp.B32(want)), names...)
+			return false
+		}
 		c := *f
 		c.Normalize()
 		if got := b32of(&c); !bytes.Equal(got, refsecp.B32(want)) {
-			classes[kind+"|mismatch"]++
-			fail(kind, fmt.Sprintf("%s(%v) normalises to %x, arithmetic mod p gives %x", kind, names, got, refsecp.B32(want)), names...)
-			return
+			classes[kind+"|result does not normalise"]++
+			fail("Normalize", fmt.Sprintf("result of %s(%v): limbs %x (value %x mod p) normalise to %x", kind, names, f.VerifLimbs(), refsecp.B32(want), got), names...)
+			return false
 		}
 		classes[kind+"|ok"]++
+		return true
+	}
+	// operands the observer cannot read correctly are reported once and not used further
+	{
+		var good []operand
+		for _, a := range opnds {
+			f := a.r.f
+			if chk("operand", &f, a.r.v, a.name) {
+				good = append(good, a)
+			}
+		}
+		opnds = good
 	}
 	_ = m
 	for i := range opnds {
